@@ -432,7 +432,8 @@ pub fn relative<T: AsRef<Path>, U: AsRef<Path>>(path: T, base: U) -> RvResult<Pa
         }
         return Ok(comps.iter().collect::<PathBuf>());
     }
-    Ok(path.to_owned())
+    // Identical paths: stay relative, the navigation from base to itself is the current directory
+    Ok(PathBuf::from(Component::CurDir.as_os_str()))
 }
 
 /// Returns a new [`PathBuf`] with the file extension trimmed off.
